@@ -90,7 +90,7 @@ def e2e_case(ctx, idx):
     rng = ctx.rng
     carrier = "h11" if idx % 3 != 2 else "h2"
     decision = rng.choice(DECISIONS)
-    closing = rng.choice(["client-code", "client-nocode", "app-close", "app-close-code", "eof", "client-then-eof"])
+    closing = rng.choice(["client-code", "client-nocode", "app-close", "app-close-code", "eof", "client-then-eof", "simultaneous"])
     if carrier == "h11":
         raw, info = gen_raw_request(rng)
     else:
@@ -106,6 +106,9 @@ def e2e_case(ctx, idx):
     app_close_code = rng.choice([1000, 1001, 3001])
     if accepted_expected:
         if closing == "app-close":
+            steps.append(("send", {"type": "websocket.close"}))
+        elif closing == "simultaneous":
+            steps.append(("recv",))          # the client's message is the signal to close
             steps.append(("send", {"type": "websocket.close"}))
         elif closing == "app-close-code":
             steps.append(("send", {"type": "websocket.close", "code": app_close_code, "reason": "done"}))
@@ -130,6 +133,20 @@ def e2e_case(ctx, idx):
             s.eof()
         elif closing == "client-then-eof":
             s.send_event(CloseConnection(code=client_code))
+            s.eof()
+        elif closing == "simultaneous":
+            # both sides close at once: the client's close frame is read while the server's own close frame is still being
+            # written (the transport is above its high-water mark); the closing handshake is complete all the same
+            from wsproto.events import TextMessage
+
+            s.rig.transport.paused = True
+            s.send_event(TextMessage(data="bye"))
+            s.rig.run()
+            s.send_event(CloseConnection(code=1000))
+            s.rig.run()
+            s.rig.transport.paused = False
+            s.rig.run()
+            s.pump()
             s.eof()
         else:
             s.pump()
@@ -190,7 +207,7 @@ def e2e_case(ctx, idx):
         if not info["ext"] and b"sec-websocket-extensions" in hd:
             bad("extension accepted although not offered", "e2e:extensions")
         # lifecycle: exactly one disconnect with the code that tells what happened
-        want_code = {"client-code": client_code, "client-then-eof": client_code, "client-nocode": 1005, "app-close": 1000,
+        want_code = {"client-code": client_code, "client-then-eof": client_code, "client-nocode": 1005, "app-close": 1000, "simultaneous": 1000,
                      "app-close-code": 1000, "eof": 1006}[closing]
         if len(disconnects) != 1 or disconnects[0]["code"] != want_code:
             bad(f"disconnects {disconnects}, expected one with code {want_code}", "e2e:disconnect-code:" + closing)
